@@ -90,8 +90,19 @@ CHECKS = {
        "that works on one engine (incl. NOT NULL / CHECK in CREATE TABLE, DROP CONSTRAINT, ALTER COLUMN SET|DROP NOT NULL, TRUNCATE, views, sequences) x every ending "
        "(COMMIT, ROLLBACK, failing statement, conflict at COMMIT, closed session, ROLLBACK TO SAVEPOINT) x warm/cold catalog cache (matrix + random schedules), constraint-"
        "violating DML, and after every event BEHAVIOUR PROBES by a fresh session of the same engine and of a second engine over the same store: valid row accepted, row "
-       "violating each CHECK / omitting each NOT NULL column refused, row violating a dropped constraint accepted, every view/sequence of the reference resolves and no other.",
-  note=TB + " Modelled rather than verified: isolation between concurrent sessions is the store's MVCC (C05) and is only exercised by the harness (the catalog-cache model takes "
+       "violating each CHECK / omitting each NOT NULL column refused, row violating a dropped constraint accepted, every view/sequence of the reference resolves and no other. "
+       "Fourth model Sql/Sessions.lean (namespace Mv, built for C12; used for C13 since seeded change c13-c: concurrent SQL sessions, per-index snapshots, the read-set of the "
+       "constraint checks, COMMIT = checkPreconditions + apply): overlapping_unique_writers_second_commit_conflicts, overlapping_unique_writers_never_both_commit_partial (of two "
+       "open transactions that wrote one UNIQUE tuple, once one commits the other's COMMIT is a read conflict; side conditions: keys written once, no deleted entry under the "
+       "prefix = R2), failed_commit_leaves_no_trace, rollback_leaves_no_trace, uncommitted_statements_invisible, committed_reads_valid_at_commit_point_partial, "
+       "readset_routing_facts_match_code (extracted guards of the three read-set loops of checkPreconditions = the routing the model assumes), witnesses c13c_demo_* and "
+       "isolation_needs_routing_by_probed_prefix. NOT proved: full commit-order serializability of the statement fragment. ORACLE 3 (Go, c13_ser.go, serial-order schedules): "
+       "2..4 sessions over tables with UNIQUE (single/multi-column) and non-unique indexes, transactions = reads (point, key range, index equality/range, COUNT, EXISTS subquery) "
+       "then writes by key, biased to conflict (same key; same UNIQUE tuple under different keys; reads of what another open session writes; write skew; forced episodes per kind): "
+       "the transactions whose COMMIT was acknowledged are replayed in commit order on the Go reference table — every recorded read result and affected-row count must equal the "
+       "reference's at that position, every write must be valid there, the committed table (through every index) = reference after every COMMIT "
+       "(C13:commit:not-serializable-in-commit-order:<what differs>); failed COMMIT / ROLLBACK leave no trace. Tie: the write-only cases through the `c12 mv` driver ops.",
+  note=TB + " Modelled rather than verified: isolation between concurrent sessions is the store's MVCC (C05); the session model Sql/Sessions.lean covers the by-key DML fragment and its constraint reads (SELECTs, range reads and write skew are exercised by the harness oracle only) (the catalog-cache model takes "
        "'a writer whose catalog read-set is stale fails with a read conflict' as given); NewTx is one step of the cache model (the two critical sections of the read-only fill are "
        "the subject of ro_fill_not_atomic_stale, not driven by the harness); the correspondence runs "
        "single-session programs on tables without secondary indexes (the in-tx index view is finding R1); pkg/server/sessions/internal/transactions is a Go internal package "
